@@ -16,6 +16,9 @@ GEN = ["SafetyTables"]
 # (name, mesh, l_min, iterations, threads, overrides, all_overrides)
 QUICK = [
     ("cube-refine", "cube.vtk", "1e-6", 60, 2, {}, {}),
+    # the raw 12-triangle cube goes straight to the refiner: 8 -> 130 node slots in the first pass (every growth of node_lst_ / face_lst_)
+    ("cube-refine-raw", "cube.vtk", "1e-6", 12, 2, {"perform_initial_triangulation": "0"}, {}),
+    ("4cubes-refine-raw-swap", "4_cubes.vtk", "1e-6", 8, 4, {"perform_initial_triangulation": "0", "enable_edge_swap_operation": "1"}, {}),
     ("4cubes-contacts", "4_cubes.vtk", "1e-6", 25, 4, {}, {}),
     ("sphere-division", "sphere.vtk", "7.5e-7", 40, 3, {}, {"avg_division_volume": "1e-18", "std_division_volume": "0"}),
     ("lumen-bpa", "lumen_initial_mesh.vtk", "2e-6", 2, 4, {}, {}),
